@@ -18,6 +18,8 @@ B1 == <<"r", "sub", "b.json">>
 C1 == <<"r", "sub", "deep", "c.json">>
 D1 == <<"o", "d.json">>
 W1 == <<"r", "sub", "w.json">>
+PctName == <<"r", "pet%20v2.json">>
+SpaceName == <<"r", "pet v2.json">>
 
 (* relative path from the directory of file f to file g *)
 RECURSIVE StripCommon(_, _)
@@ -42,6 +44,7 @@ R(f, g, k, n, style) == [path |-> IF f = g THEN <<>> ELSE Spell(f, g, style), fr
 RW(f, g, style) == [path |-> Spell(f, g, style), frag |-> <<>>]       \* whole-file ref
 
 Conc(id, ch) == [id |-> id, ch |-> ch]
+Broken == [id |-> "BROKEN", ch |-> <<>>, broken |-> TRUE]      \* `null` where an object MUST be (Layout!IsBroken)
 RefC(r) == [ref |-> r]
 Slot(f, k, n, c) == [file |-> f, kind |-> k, name |-> n, c |-> c]
 Ch(site, k, r) == [site |-> site, kind |-> k, ref |-> r]
@@ -150,6 +153,18 @@ Shapes(k, st) ==
                Slot(A1, k, "C", Conc("extC", <<>>))>>, R(Root, Root, k, "A", st), k)],
     [shape |-> "sameroot", u |-> U(<<Slot(Root, k, "X", Conc("X", <<>>))>>, R(Root, Root, k, "X", st), k)]}
    \cup
+   \* file and directory names that contain a LITERAL percent sign followed by two hex digits ("pet%20v2.json", a directory "%2e%2e"): the
+   \* reference spells the percent sign %25, and the location it designates is the literal name -- not the name decoded once more
+   \* ("pet v2.json", "..": files that exist as well, and that nobody refers to)
+   {[shape |-> "pctname", u |-> U(<<Slot(PctName, k, "X", Conc("X", <<>>)), Slot(SpaceName, k, "X", Conc("Decoy", <<>>))>>, R(Root, PctName, k, "X", st), k)],
+    [shape |-> "pctname_whole", u |-> U(<<Slot(PctName, k, "", Conc("W", <<>>)), Slot(SpaceName, k, "", Conc("Decoy", <<>>))>>, RW(Root, PctName, st), k)],
+    [shape |-> "spacename", u |-> U(<<Slot(PctName, k, "X", Conc("Other", <<>>)), Slot(SpaceName, k, "X", Conc("X", <<>>))>>, R(Root, SpaceName, k, "X", st), k)],
+    [shape |-> "pctdir", u |-> U(<<Slot(<<"r", "sub", "%2e%2e", "k.json">>, k, "X", Conc("X", <<>>)), Slot(<<"r", "k.json">>, k, "X", Conc("Decoy", <<>>))>>,
+                                 R(Root, <<"r", "sub", "%2e%2e", "k.json">>, k, "X", st), k)]}
+   \cup
+   \* a whole-file reference made by the root itself to a childless object, for EVERY kind (also the kinds without child sites)
+   {[shape |-> "wholefile_plain", u |-> U(<<Slot(W1, k, "", Conc("W", <<>>))>>, RW(Root, W1, st), k)]}
+   \cup
    \* a component name that differs from an existing one by case only: dangling
    {[shape |-> "nearmiss_name", u |-> U(<<Slot(A1, k, "X", Conc("X", <<>>))>>, R(Root, A1, k, "x", st), k)]}
    \cup
@@ -227,6 +242,25 @@ Shapes(k, st) ==
       [shape |-> "rootchild", site |-> s.site,      \* a root component with a child site pointing out
        u |-> U(<<Slot(Root, k, "X", Conc("X", <<Ch(s.site, s.kind, R(Root, B1, s.kind, "Y", st))>>)),
                  Slot(B1, s.kind, "Y", Conc("Y", <<>>))>>, R(Root, Root, k, "X", st), k)],
+      \* a component of the ROOT whose child is a whole-file reference (the only whole-file references a load with external
+      \* references disallowed ever gets to see are the root's own)
+      [shape |-> "rootchild_whole", site |-> s.site,
+       u |-> U(<<Slot(Root, k, "X", Conc("X", <<Ch(s.site, s.kind, RW(Root, <<"r", "sub", "wy.json">>, st))>>)),
+                 Slot(<<"r", "sub", "wy.json">>, s.kind, "", Conc("WY", <<>>))>>, R(Root, Root, k, "X", st), k)],
+      \* the same reference STRING in two different files, designating different targets: fragment form into a sibling file of each ...
+      [shape |-> "sameref_twofiles", site |-> s.site,
+       u |-> U(<<Slot(<<"r", "orders", "api.json">>, k, "X", Conc("X", <<Ch(s.site, s.kind, R(<<"r", "orders", "api.json">>, <<"r", "orders", "types.json">>, s.kind, "Id", st))>>)),
+                 Slot(<<"r", "billing", "api.json">>, k, "X", Conc("X2", <<Ch(s.site, s.kind, R(<<"r", "billing", "api.json">>, <<"r", "billing", "types.json">>, s.kind, "Id", st))>>)),
+                 Slot(<<"r", "orders", "types.json">>, s.kind, "Id", Conc("Id1", <<>>)), Slot(<<"r", "billing", "types.json">>, s.kind, "Id", Conc("Id2", <<>>)),
+                 Slot(Root, k, "V", RefC(R(Root, <<"r", "orders", "api.json">>, k, "X", st)))>>, R(Root, <<"r", "billing", "api.json">>, k, "X", st), k)],
+      \* ... and two external documents that each refer to their OWN component of the same name
+      [shape |-> "samelocal_twofiles", site |-> s.site,
+       u |-> U(<<Slot(A1, k, "X", Conc("X", <<Ch(s.site, s.kind, R(A1, A1, s.kind, "Y", st))>>)), Slot(A1, s.kind, "Y", Conc("Y1", <<>>)),
+                 Slot(B1, k, "X", Conc("X2", <<Ch(s.site, s.kind, R(B1, B1, s.kind, "Y", st))>>)), Slot(B1, s.kind, "Y", Conc("Y2", <<>>)),
+                 Slot(Root, k, "V", RefC(R(Root, A1, k, "X", st)))>>, R(Root, B1, k, "X", st), k)],
+      [shape |-> "rootdef_child", site |-> s.site,      \* (the loadable twin)
+       u |-> U(<<Slot(Root, k, DefName("T"), Conc("T", <<Ch(s.site, s.kind, R(Root, B1, s.kind, "Y", st))>>)),
+                 Slot(B1, s.kind, "Y", Conc("Y", <<>>))>>, DefRef(k, "T"), k)],
       \* an external object that the root reaches FIRST through a local alias (components are walked by name: A -> #B, B -> b.json#X),
       \* with a same-document child reference of its own
       [shape |-> "localalias_childlocal", site |-> s.site,
@@ -250,6 +284,19 @@ Shapes(k, st) ==
        u |-> U(<<Slot(B1, k, "X", RefC(RW(B1, WD, st))), Slot(WD, k, "", Conc("W", <<Ch(s.site, s.kind, DefRef(s.kind, "T"))>>)),
                  Slot(WD, s.kind, DefName("T"), RefC(RW(WD, TY(WD), st))), Slot(TY(WD), s.kind, "", Conc("TY", <<>>)),
                  Slot(TY(B1), s.kind, "", Conc("Decoy1", <<>>)), Slot(TY(Root), s.kind, "", Conc("Decoy2", <<>>))>>, R(Root, B1, k, "X", st), k)]}
+     \cup
+     \* (a null EXAMPLE is tolerated by the loader, and a discriminator mapping is not followed: the statement does not say either must
+     \* fail, so those two are left out)
+     (IF s.kind # "examples" /\ s.site # "discriminator.mapping" THEN {
+      \* a referenced document that cannot be loaded (null where an object of the child's kind MUST be): reached from an external
+      \* object, and from a definition of the root that the document walk does not visit on its own
+      [shape |-> "child_brokenfile", site |-> s.site,
+       u |-> U(<<Slot(A1, k, "X", Conc("X", <<Ch(s.site, s.kind, R(A1, B1, s.kind, "Y", st))>>)),
+                 Slot(B1, s.kind, "Y", Conc("Y", <<>>)), Slot(B1, s.kind, "N", Broken)>>, R(Root, A1, k, "X", st), k)],
+      [shape |-> "rootdef_childbroken", site |-> s.site,
+       u |-> U(<<Slot(Root, k, DefName("T"), Conc("T", <<Ch(s.site, s.kind, R(Root, B1, s.kind, "Y", st))>>)),
+                 Slot(B1, s.kind, "Y", Conc("Y", <<>>)), Slot(B1, s.kind, "N", Broken)>>, DefRef(k, "T"), k)]}
+      ELSE {})
      \cup
      \* an external object referring back BELOW a component of the root document
      UNION {
@@ -420,10 +467,13 @@ PathItemShapes(st) ==
 (*     universe needs another file), then they are allowed and the root is loaded again: a failed attempt leaves nothing behind.       *)
 (*     (Only this direction: whether a Loader that has resolved a document with the switch on may hand the same document out again     *)
 (*     after the switch is turned off -- reading nothing -- is left open by the statement of C11, so allow = FALSE is not generated.)   *)
-HistoryEntries == {"resolvein", "file_abs_toggled", "resolvein_toggled", "file_abs_retry", "resolvein_retry"}
+(*   resolvein_again: ResolveRefsIn on a first parsed copy of the root, then -- no Load* in between -- on a second parsed copy, which is  *)
+(*     the one judged: what the first call resolved gives the second no licence to skip anything                                           *)
+HistoryEntries == {"resolvein", "file_abs_toggled", "resolvein_toggled", "file_abs_retry", "resolvein_retry", "resolvein_again"}
 Entries == {"file_abs", "file_rel", "datapath", "file_rel_default", "uri_remote", "file_abs_reuse", "file_abs_prior", "data", "reader"} \cup HistoryEntries
 
-Heavy == {"deepback", "deepback_named", "wholedef", "wholedef_ref", "wholedef_reffrag", "wholedef_via"}      \* (shape families with many members: sliced by clauses of their own)
+Heavy == {"pctname", "pctname_whole", "spacename", "pctdir", "deepback", "deepback_named", "wholedef", "wholedef_ref", "wholedef_reffrag", "wholedef_via",
+          "rootchild_whole", "sameref_twofiles", "samelocal_twofiles", "child_brokenfile", "rootdef_childbroken", "rootdef_child"}      \* (shape families with many members: sliced by clauses of their own)
 QuickSlice(sh, st, e, pos) ==
    \/ (st \in {"plain", "abspath", "http"} /\ e = "file_abs" /\ sh.shape \notin Heavy)
    \/ (sh.shape \in {"deepback", "deepback_named"} /\ sh.canon /\ st = "plain" /\ e = "file_abs" /\ pos = "op")
@@ -431,7 +481,14 @@ QuickSlice(sh, st, e, pos) ==
    \/ (sh.shape = "wholedef_ref" /\ st = "plain" /\ e \in {"file_rel", "uri_remote"} /\ pos = "op" /\ sh.site \in {"properties", "schema", "content.schema", "headers"})
    \/ (sh.shape \in {"direct", "chain3", "child", "wholefile"} /\ st = "plain" /\ e \in {"resolvein", "file_abs_toggled", "resolvein_toggled"} /\ pos = "op")
    \/ (sh.shape \in {"direct", "child", "sameroot"} /\ st = "plain" /\ e \in {"file_abs_retry", "resolvein_retry"} /\ pos = "op")
+   \/ (sh.shape \in {"direct", "child", "wholefile", "pi_direct", "pi_local", "pi_wholefile_plain", "pi_child"} /\ st = "plain" /\ e = "resolvein_again" /\ pos \in {"op", "op2"})
    \/ (sh.shape = "localalias_childlocal" /\ st = "plain" /\ e = "data" /\ pos = "op")
+   \/ (sh.shape \in {"pctname", "pctname_whole", "spacename", "pctdir"} /\ st \in {"plain", "abspath"} /\ e \in {"file_abs", "file_rel", "data", "file_rel_default"} /\ pos = "op")
+   \/ (sh.shape \in {"rootchild_whole", "sameref_twofiles", "samelocal_twofiles", "child_brokenfile", "rootdef_childbroken", "rootdef_child"}
+       /\ st = "plain" /\ e = "file_abs" /\ pos = "op")
+   \/ (sh.shape \in {"rootchild_whole", "wholefile_plain"} /\ st = "plain" /\ e \in {"data", "resolvein", "file_rel"} /\ pos = "op")
+   \/ (sh.shape \in {"rootdef_childbroken"} /\ st = "plain" /\ e = "data" /\ pos = "op")
+   \/ (sh.shape \in {"pi_direct", "pi_local", "pi_wholefile_plain", "pi_child"} /\ pos = "op2" /\ st = "plain" /\ e \in {"data", "datapath"})
    \/ (sh.shape \in {"deepcomp_local", "rootdef", "pi_nearmiss_local", "pathfragment_nearmiss_local"} /\ st = "plain" /\ e = "data")
    \/ (st \in AbsStyles /\ sh.shape \in {"direct", "child", "wholefile"} /\ e = "datapath" /\ pos = "op")
    \/ sh.shape = "otherhost_samepath"
@@ -456,13 +513,26 @@ QuickSlice(sh, st, e, pos) ==
 
 (* thorough: the full product for the shapes of rounds 1-5; the large families added in round 6 and the Loader histories are    *)
 (* combined with the entry points that differ in how locations are formed, not with every one of the fourteen                    *)
-NewFamilies == Heavy \cup {"localalias_childlocal", "childpair", "childpair_root", "childpair_local", "pi_childpair", "deepback2"}
+NewFamilies == Heavy \cup {"wholefile_plain", "localalias_childlocal", "childpair", "childpair_root", "childpair_local", "pi_childpair", "deepback2"}
 ThoroughSlice(sh, st, e, pos) ==
-   /\ (sh.shape \in NewFamilies => e \in {"file_abs", "file_rel", "datapath", "data", "uri_remote"})
+   /\ (sh.shape \in NewFamilies => e \in {"file_abs", "file_rel", "datapath", "data", "uri_remote"}
+                                     \/ (sh.shape \in {"wholefile_plain", "rootchild_whole"} /\ e = "resolvein")
+                                     \/ (sh.shape \in {"pctname", "pctname_whole", "spacename", "pctdir"} /\ e = "file_rel_default"))
    /\ (sh.shape \in NewFamilies /\ st \notin RelStyles => e = "file_abs")
    /\ (sh.shape \in {"deepback", "deepback_named"} /\ ~sh.canon => st = "plain" /\ e \in {"file_abs", "data"})
-   /\ (e \in HistoryEntries => st = "plain" /\ sh.shape \notin NewFamilies
+   /\ (e \in HistoryEntries => st = "plain" /\ (sh.shape \notin NewFamilies \/ (sh.shape \in {"wholefile_plain", "rootchild_whole"} /\ e = "resolvein"))
                                 /\ sh.shape \notin {"samename_otherkind", "collision", "childlocal_shadow", "childdangling_whole", "whole_localdangling", "childdeep_whole"})
+
+(* C11 (both settings of the switch are generated) takes a slice of the quick slice: every shape and every position with the plain      *)
+(* spelling; the other spellings of a reference with the shapes that differ in HOW a location is formed and read (Core), since the guard  *)
+(* and the reader do not care what kind of graph the reference sits in.                                                                   *)
+Core == {"direct", "chain3", "dangling", "child", "wholefile", "wholefile_plain", "rootchild", "rootchild_whole", "childdeep", "childdeep_whole",
+         "childdangling_whole", "backref", "sameroot", "pi_direct", "pi_wholefile", "pi_wholefile_plain", "pi_child", "otherhost_samepath",
+         "samepath_twohosts", "deepfragment", "collection", "pathfragment_ext", "pctname", "pctname_whole", "pctdir"}
+C11Slice(sh, st, e, pos) ==
+   /\ (e = "file_abs" /\ st # "plain" => sh.shape \in Core /\ pos # "op2")
+   /\ (e \notin {"file_abs", "datapath", "uri_remote"} /\ st # "plain" => sh.shape \in {"direct", "wholefile", "otherhost_samepath", "pctname", "pctname_whole", "pctdir"})
+   /\ (e = "reader" => pos = "op")
 
 CONSTANT Allows      \* settings of IsExternalRefsAllowed to generate
 VARIABLE case
@@ -470,13 +540,20 @@ VARIABLE case
 (* operations at once ("op2": the same reference text twice; both must end up at the same object)                  *)
 Init == \E k \in Kinds \cup {PI}, st \in Styles, e \in Entries, pos \in {"op", "comp", "op2"}, al \in Allows :
           \E sh \in (IF k = PI THEN PathItemShapes(st) ELSE Shapes(k, st) \cup (IF k = "callbacks" THEN CallbackCycles(st) ELSE {})) :
-             /\ (k = PI => pos = "op")
-             /\ (pos = "op2" => sh.shape \in {"direct", "chain3", "child", "childlocal", "wholefile", "selfcycle", "backref"} /\ e \in {"file_abs", "file_rel"})
+             /\ (k = PI => pos \in {"op", "op2"})        \* op2 on path items: two routes carrying the same $ref (a diamond over path items)
+             /\ (pos = "op2" => sh.shape \in {"direct", "chain3", "child", "childlocal", "wholefile", "selfcycle", "backref",
+                                                "pi_direct", "pi_local", "pi_wholefile_plain", "pi_wholefile", "pi_child", "pi_templated"}
+                                /\ e \in {"file_abs", "file_rel", "data", "datapath", "resolvein_again"})
              /\ (Tier = "quick" => QuickSlice(sh, st, e, pos))
+             /\ (Tier = "quick" /\ Allows = BOOLEAN => C11Slice(sh, st, e, pos))
              /\ (Tier = "thorough" => ThoroughSlice(sh, st, e, pos))
+             \* C11 thorough: the less common spellings (./, sub/.., file://, https://, //host) with the Core shapes
+             /\ (Tier = "thorough" /\ Allows = BOOLEAN /\ st \notin {"plain", "abspath", "http"} => sh.shape \in Core)
              /\ (e = "uri_remote" => st \in RelStyles)
+             \* (the reader is asked for a remote location in its escaped spelling, which Trace_C11!ReadName does not model: percent names stay on files)
+             /\ (sh.shape \in {"pctname", "pctname_whole", "spacename", "pctdir"} => st \in RelStyles \cup {"abspath", "fileurl"} /\ e # "uri_remote")
              /\ (e \in {"file_abs_retry", "resolvein_retry"} => al)
-             /\ (e \in HistoryEntries => st \in RelStyles \cup {"abspath"} /\ pos # "op2")
+             /\ (e \in HistoryEntries => st \in RelStyles \cup {"abspath"} /\ (pos = "op2" => e = "resolvein_again"))
              /\ (sh.shape = "samepath_twohosts" => e # "file_rel_default")      \* the library's default reader cannot be made to serve a second host
              /\ (k = "securitySchemes" => pos = "comp")        \* security schemes are referenced by name, not by $ref
              /\ case = [kind |-> k, style |-> st, entry |-> e, pos |-> pos, shape |-> sh.shape,
@@ -487,7 +564,8 @@ Spec == Init /\ [][Next]_case
 (* what the realiser needs: for every slot its file as text and content; for every ref its text *)
 RECURSIVE JoinSlashG(_)
 JoinSlashG(p) == IF p = <<>> THEN "" ELSE IF Len(p) = 1 THEN p[1] ELSE p[1] \o "/" \o JoinSlashG(Tail(p))
-RenderContent(c) == IF IsConcrete(c)
+RenderContent(c) == IF IsBroken(c) THEN [broken |-> TRUE]
+                    ELSE IF IsConcrete(c)
                     THEN [id |-> c.id, ch |-> [j \in DOMAIN c.ch |-> [site |-> c.ch[j].site, kind |-> c.ch[j].kind, ref |-> RefText(c.ch[j].ref)]],
                           inl |-> (IF "inl" \in DOMAIN c THEN c.inl ELSE <<>>)]
                     ELSE [ref |-> RefText(c.ref)]
